@@ -449,38 +449,46 @@ func (env *SpecEnv) lookupVar(name string) SV {
 	if env.fr.fn == nil {
 		panic("spec: unknown identifier " + name)
 	}
-	// heap-allocated (captured) variables of the current function
+	// a local variable of the current function by name: a cell, or a heap-allocated (captured) variable whose Alloc
+	// has been executed. Several may share the name (shadowing / sibling scopes): prefer the nearest declaration at or
+	// before the evaluation position; without a position, the first declared.
+	var found *ssa.Alloc
+	consider := func(a *ssa.Alloc) {
+		if found == nil {
+			found = a
+			return
+		}
+		if env.atPos != token.NoPos {
+			fa, aa := found.Pos() <= env.atPos, a.Pos() <= env.atPos
+			if aa && (!fa || a.Pos() > found.Pos()) {
+				found = a
+			}
+		} else if a.Pos() < found.Pos() {
+			found = a
+		}
+	}
+	for a := range env.st.cells {
+		if a.Comment == name && a.Parent() == env.fr.fn {
+			consider(a)
+		}
+	}
 	for _, b := range env.fr.fn.Blocks {
 		for _, ins := range b.Instrs {
 			if a, ok := ins.(*ssa.Alloc); ok && a.Heap && a.Comment == name {
-				if p, ok := env.fr.regs[a]; ok {
-					return env.e.readLV(env.st, p.(*PtrV), a.Type().(*types.Pointer).Elem())
+				if _, isCell := env.st.cells[a]; isCell {
+					continue
 				}
-			}
-		}
-	}
-	// local / param cell of the current function by name
-	var found *ssa.Alloc
-	for a := range env.st.cells {
-		if a.Comment == name && a.Parent() == env.fr.fn {
-			if found == nil {
-				found = a
-				continue
-			}
-			// several cells share the name (shadowing / sibling scopes): prefer the nearest declaration
-			// at or before the evaluation position; without a position, the first declared.
-			if env.atPos != token.NoPos {
-				fa, aa := found.Pos() <= env.atPos, a.Pos() <= env.atPos
-				if aa && (!fa || a.Pos() > found.Pos()) {
-					found = a
+				if _, ok := env.fr.regs[a]; ok {
+					consider(a)
 				}
-			} else if a.Pos() < found.Pos() {
-				found = a
 			}
 		}
 	}
 	if found != nil {
-		return env.st.cells[found]
+		if v, ok := env.st.cells[found]; ok {
+			return v
+		}
+		return env.e.readLV(env.st, env.fr.regs[found].(*PtrV), found.Type().(*types.Pointer).Elem())
 	}
 	for _, p := range env.fr.fn.Params {
 		if p.Name() == name {
